@@ -26,7 +26,8 @@ carried, `x[k] = v` only on a local bound by `dict(…)`):
 * EXTERNAL FUNCTIONS (`externals=[…]`): module-level functions that stay outside are function parameters (as in `pytolean.py`).
 * EXPRESSIONS added: `len(x)` (`PyLn.lenV`), `x[i]` (`PyLn.index`; an IndexError is not represented), `a + b` on ints (`PyLn.add`),
   a dict display with DISTINCT constant keys (`PyVal.dict [...]` literally), `set(a) & set(b)` ONLY as an `if` test (`PyLn.shares a b`:
-  some member of `a` equals some member of `b`; members are hashable — `_actions` returns strings), a call of a translated function
+  some member of `a` equals some member of `b`; members are hashable — `_actions` returns strings), `set(e)` as a value (`PyLn.setOf`: the
+  list of its members, to be used by `issubset` only) and `a.issubset(b)` (`PyLn.issubset`), a call of a translated function
   with keyword arguments (matched to the callee's parameters; missing ones take their constant defaults), `str(x)` through the
   oracle parameter `o` (CPython's text of floats/containers).
 * `d.get(k)` on a non-dict raises AttributeError in CPython and is `None` here (as everywhere in the framework): the obligations
@@ -75,10 +76,14 @@ class LintTranslator(pytolean.Translator):
             return f"({PYLN}index {self.E(e.value)} {self.E(e.slice)})"
         if isinstance(e, ast.BinOp) and isinstance(e.op, ast.Add):
             return f"({PYLN}add {self.E(e.left)} {self.E(e.right)})"
+        if isinstance(e, ast.Call) and isinstance(e.func, ast.Attribute) and e.func.attr == "issubset" and len(e.args) == 1 and not e.keywords:
+            return f"({PYLN}issubset {self.E(e.func.value)} {self.E(e.args[0])})"
         if isinstance(e, ast.Call) and isinstance(e.func, ast.Name) and e.func.id not in self.locals:
             f = e.func.id
             if f == "len" and len(e.args) == 1 and not e.keywords:
                 return f"({PYLN}lenV {self.E(e.args[0])})"
+            if f == "set" and len(e.args) == 1 and not e.keywords:
+                return f"({PYLN}setOf {self.E(e.args[0])})"
             if f in self.externals and f not in self.known:
                 if f not in self.cur_uses:
                     self.cur_uses.append(f)
